@@ -1,10 +1,11 @@
-import MuscleModel.Reflector.IndexProofsSnap
+import MuscleModel.Reflector.IndexProofsTrav
 
 /-!
 # C13: the PR_COMMAND_REORDERDATA handler keeps the whole-tree invariant
 
-`reorderChild` only rewrites indices, so every node that exists keeps existing; hence every node the traversal
-handed over is still a child of its parent when its turn comes.
+The traversal hands over name paths of existing nodes (`doTraversal_sound`); `reorderChild` only rewrites indices,
+so every such path stays the path of an existing node; hence every node is still a child of its parent when its
+turn comes.
 -/
 
 set_option linter.unusedSimpArgs false
@@ -13,24 +14,25 @@ set_option linter.unusedVariables false
 namespace Muscle.Reflector
 open Muscle
 
-theorem nodeAt_updateAt_isSome {f : Node → Node} (hf : ∀ n, (f n).name = n.name) (hk : ∀ n, (f n).kids = n.kids)
+theorem below_updateAt {f : Node → Node} (hf : ∀ n, (f n).name = n.name) (hk : ∀ n, (f n).kids = n.kids)
     (fuel : Nat) (n : Node) (path q : List Bytes) :
-    (nodeAt fuel (updateAt fuel n path f) q).isSome = (nodeAt fuel n q).isSome := by
+    below (updateAt fuel n path f) q = below n q := by
   induction fuel generalizing n path q with
   | zero =>
     cases path with
     | nil =>
+      rw [ix_updateAt_nil]
       cases q with
-      | nil => simp [nodeAt_nil]
-      | cons a r => simp [nodeAt]
+      | nil => rfl
+      | cons a r => simp only [below, hk]
     | cons b rest => rfl
   | succ fuel ih =>
     cases path with
     | nil =>
-      rw [updateAt_nil]
+      rw [ix_updateAt_nil]
       cases q with
-      | nil => simp [nodeAt_nil]
-      | cons a r => simp only [nodeAt, hk]
+      | nil => rfl
+      | cons a r => simp only [below, hk]
     | cons b rest =>
       simp only [updateAt]
       cases hb : findKid b n.kids with
@@ -38,26 +40,25 @@ theorem nodeAt_updateAt_isSome {f : Node → Node} (hf : ∀ n, (f n).name = n.n
       | some k =>
         simp only
         cases q with
-        | nil => simp [nodeAt_nil]
+        | nil => rfl
         | cons a r =>
-          simp only [nodeAt, Node.setKids_kids]
-          have hn : (updateAt fuel k rest f).name = b := by rw [updateAt_name hf, findKid_some_name hb]
+          simp only [below, Node.setKids_kids]
+          have hn : (updateAt fuel k rest f).name = b := by rw [ix_updateAt_name hf, findKid_some_name hb]
           by_cases hab : a = b
           · subst hab
-            have := findKid_putKid_same (updateAt fuel k rest f) n.kids
+            have := ix_findKid_putKid_same (updateAt fuel k rest f) n.kids
             rw [hn] at this
             rw [this, hb]
             exact ih k rest r
-          · rw [findKid_putKid_ne _ _ (by rw [hn]; exact fun e => hab e.symm)]
+          · rw [ix_findKid_putKid_ne _ _ (by rw [hn]; exact fun e => hab e.symm)]
 
-theorem getNode_isSome_setIndex (g : Node → List Bytes) (sv : Server) (parent q : List Bytes) :
-    (getNode (setNode sv parent (fun p => p.setIndex (g p))) q).isSome = (getNode sv q).isSome := by
-  simp only [getNode, setNode_root]
-  exact nodeAt_updateAt_isSome (setIndex_name_pres g) (by simp) _ _ _ _
+theorem below_setIndex (g : Node → List Bytes) (sv : Server) (parent q : List Bytes) :
+    below (setNode sv parent (fun p => p.setIndex (g p))).root q = below sv.root q := by
+  simp only [setNode_root]
+  exact below_updateAt (setIndex_name_pres g) (by simp) _ _ _ _
 
-theorem getNode_isSome_removeIndexEntry (sv : Server) (parent : List Bytes) (key : Bytes) (notify : Bool)
-    (q : List Bytes) :
-    (getNode (removeIndexEntry sv parent key notify) q).isSome = (getNode sv q).isSome := by
+theorem below_removeIndexEntry (sv : Server) (parent : List Bytes) (key : Bytes) (notify : Bool) (q : List Bytes) :
+    below (removeIndexEntry sv parent key notify).root q = below sv.root q := by
   cases h : getNode sv parent with
   | none => simp [removeIndexEntry, h]
   | some p =>
@@ -66,14 +67,14 @@ theorem getNode_isSome_removeIndexEntry (sv : Server) (parent : List Bytes) (key
     | some i =>
       cases notify with
       | true =>
-        rw [removeIndexEntry_emits h hi, getNode_notifyIndex]
-        exact getNode_isSome_setIndex (fun q => q.index.eraseIdx i) sv parent q
+        rw [removeIndexEntry_emits h hi, notifyIndex_root]
+        exact below_setIndex (fun q => q.index.eraseIdx i) sv parent q
       | false =>
         rw [removeIndexEntry_quiet h hi]
-        exact getNode_isSome_setIndex (fun q => q.index.eraseIdx i) sv parent q
+        exact below_setIndex (fun q => q.index.eraseIdx i) sv parent q
 
-theorem getNode_isSome_reorderChild (sv : Server) (parent : List Bytes) (child before : Bytes) (q : List Bytes) :
-    (getNode (reorderChild sv parent child before) q).isSome = (getNode sv q).isSome := by
+theorem below_reorderChild (sv : Server) (parent : List Bytes) (child before : Bytes) (q : List Bytes) :
+    below (reorderChild sv parent child before).root q = below sv.root q := by
   cases h : getNode sv parent with
   | none => simp [reorderChild, h]
   | some p =>
@@ -82,11 +83,11 @@ theorem getNode_isSome_reorderChild (sv : Server) (parent : List Bytes) (child b
     · by_cases hg : (p.index.isEmpty && !(p.index.contains child) && before = removeFromIndexName) = true
       · rw [reorderChild_nothing h hg]
       · by_cases hr : before = removeFromIndexName
-        · rw [reorderChild_remove h hb hg hr]; exact getNode_isSome_removeIndexEntry _ _ _ _ _
-        · rw [reorderChild_emits h hb hg hr, getNode_notifyIndex,
-            getNode_isSome_setIndex (fun q => q.index.take (reorderTarget p child before) ++ [child] ++
+        · rw [reorderChild_remove h hb hg hr]; exact below_removeIndexEntry _ _ _ _ _
+        · rw [reorderChild_emits h hb hg hr, notifyIndex_root,
+            below_setIndex (fun q => q.index.take (reorderTarget p child before) ++ [child] ++
               q.index.drop (reorderTarget p child before))]
-          exact getNode_isSome_removeIndexEntry _ _ _ _ _
+          exact below_removeIndexEntry _ _ _ _ _
 
 /-- one step of the REORDERDATA handler's loop -/
 def reorderStep (before : Bytes) (sv : Server) (v : List Bytes) : Server :=
@@ -94,14 +95,51 @@ def reorderStep (before : Bytes) (sv : Server) (v : List Bytes) : Server :=
   | none => sv
   | some nm => if v.length ≤ 2 then sv else reorderChild sv v.dropLast nm before
 
-theorem getNode_isSome_reorderStep (before : Bytes) (sv : Server) (v q : List Bytes) :
-    (getNode (reorderStep before sv v) q).isSome = (getNode sv q).isSome := by
+theorem below_reorderStep (before : Bytes) (sv : Server) (v q : List Bytes) :
+    below (reorderStep before sv v).root q = below sv.root q := by
   unfold reorderStep
   repeat' split
-  all_goals first | rfl | exact getNode_isSome_reorderChild _ _ _ _ _
+  all_goals first | rfl | exact below_reorderChild _ _ _ _ _
+
+theorem below_of_nodeAt {fuel : Nat} {root n : Node} {pre v : List Bytes} (h : nodeAt fuel root pre = some n)
+    (hv : below n v = true) : below root (pre ++ v) = true := by
+  induction pre generalizing fuel root with
+  | nil => rw [ix_nodeAt_nil] at h; cases h; simpa using hv
+  | cons a r ih =>
+    cases fuel with
+    | zero => simp [nodeAt] at h
+    | succ fuel =>
+      simp only [nodeAt] at h
+      cases hk : findKid a root.kids with
+      | none => simp [hk] at h
+      | some k =>
+        simp only [hk] at h
+        simp only [List.cons_append, below, hk]
+        exact ih h
+
+theorem below_snoc_findKid {fuel : Nat} {n p : Node} {pre : List Bytes} {k : Bytes}
+    (hb : below n (pre ++ [k]) = true) (hp : nodeAt fuel n pre = some p) : (findKid k p.kids).isSome := by
+  induction pre generalizing fuel n with
+  | nil =>
+    rw [ix_nodeAt_nil] at hp; cases hp
+    simp only [List.nil_append, below] at hb
+    cases hk : findKid k p.kids with
+    | none => simp [hk] at hb
+    | some c => rfl
+  | cons a r ih =>
+    cases fuel with
+    | zero => simp [nodeAt] at hp
+    | succ fuel =>
+      simp only [nodeAt] at hp
+      simp only [List.cons_append, below] at hb
+      cases hk : findKid a n.kids with
+      | none => simp [hk] at hp
+      | some c =>
+        simp only [hk] at hp hb
+        exact ih hb hp
 
 theorem treeInv_reorderStep (before : Bytes) {sv : Server} {v : List Bytes} (h : TreeInv sv)
-    (hv : (getNode sv v).isSome) : TreeInv (reorderStep before sv v) := by
+    (hv : below sv.root v = true) : TreeInv (reorderStep before sv v) := by
   unfold reorderStep
   split
   · exact h
@@ -117,32 +155,39 @@ theorem treeInv_reorderStep (before : Bytes) {sv : Server} {v : List Bytes} (h :
         rw [List.getLast?_eq_some_getLast hne] at hl
         cases hl
         exact this.symm
-      obtain ⟨c, hc⟩ := Option.isSome_iff_exists.mp hv
-      rw [hvv] at hc
-      obtain ⟨p', hp', hk⟩ := getNode_snoc hc
-      rw [hp] at hp'; cases hp'
-      rw [hk]; rfl
+      rw [hvv] at hv
+      exact below_snoc_findKid hv hp
 
 theorem treeInv_reorderFold (before : Bytes) (visits : List (List Bytes)) {sv : Server} (h : TreeInv sv)
-    (hex : ∀ v ∈ visits, (getNode sv v).isSome) : TreeInv (visits.foldl (reorderStep before) sv) := by
+    (hex : ∀ v ∈ visits, below sv.root v = true) : TreeInv (visits.foldl (reorderStep before) sv) := by
   induction visits generalizing sv with
   | nil => exact h
   | cons v r ih =>
     simp only [List.foldl_cons]
     apply ih (treeInv_reorderStep before h (hex v (by simp)))
     intro w hw
-    rw [getNode_isSome_reorderStep]
+    rw [below_reorderStep]
     exact hex w (List.mem_cons_of_mem _ hw)
 
-/-- PR_COMMAND_REORDERDATA, given that the traversal hands over existing nodes only -/
-theorem treeInv_reorder {sv : Server} (sid : Nat) (key before : Bytes) (h : TreeInv sv)
-    (hex : ∀ s, sv.sess? sid = some s →
-      ∀ v ∈ travSession sv s (pmOfKeys [(key, none)] none) cbContinue, (getNode sv v).isSome) :
+/-- the paths `travSession` hands to a handler are paths of existing nodes -/
+theorem travSession_sound {sv : Server} (s : Sess) (pm : PM) (cb : Visit → Nat → Node → Bool × Int)
+    (h : TreeInv sv) : ∀ v ∈ travSession sv s pm cb, below sv.root v = true := by
+  intro v hv
+  unfold travSession at hv
+  cases hn : getNode sv (sessNames s) with
+  | none => simp [hn] at hv
+  | some n =>
+    simp only [hn, List.mem_map] at hv
+    obtain ⟨w, hw, rfl⟩ := hv
+    exact below_of_nodeAt hn (doTraversal_sound pm true 2 cb n fuelDepth (treeInv_getNode h hn) w hw)
+
+/-- PR_COMMAND_REORDERDATA -/
+theorem treeInv_reorder {sv : Server} (sid : Nat) (key before : Bytes) (h : TreeInv sv) :
     TreeInv (reorder sv sid key before) := by
   unfold reorder
   split
   · exact h
   · rename_i s hs
-    exact treeInv_reorderFold before _ h (hex s hs)
+    exact treeInv_reorderFold before _ h (travSession_sound s _ _ h)
 
 end Muscle.Reflector
